@@ -311,6 +311,94 @@ Proof.
   intros x (m & t' & H1 & H2 & [H3|[H3 _]]); [|discriminate]. exists m, t'. tauto.
 Qed.
 
+(* ------------------------------------------------------------------ pairing up an alternating list *)
+Definition spair : Set := (msg * option msg)%type.
+
+Fixpoint cpairs (o : option msg) (L : list msg) : list spair :=
+  match L with
+  | [] => []
+  | m :: L' => match o with None => cpairs (Some m) L' | Some on => (on, Some m) :: cpairs None L' end
+  end.
+
+Fixpoint popen (o : option msg) (L : list msg) : option msg :=
+  match L with
+  | [] => o
+  | m :: L' => match o with None => popen (Some m) L' | Some _ => popen None L' end
+  end.
+
+Definition pairs_from (o : option msg) (L : list msg) : list spair :=
+  cpairs o L ++ match popen o L with Some on => [(on, None)] | None => [] end.
+
+Lemma cpairs_snoc L : forall o m,
+  cpairs o (L ++ [m]) = cpairs o L ++ match popen o L with Some on => [(on, Some m)] | None => [] end.
+Proof.
+  induction L as [|x L IH]; intros o m; cbn [app cpairs popen].
+  - destruct o; reflexivity.
+  - destruct o; rewrite IH; reflexivity.
+Qed.
+
+Lemma popen_snoc L : forall o m,
+  popen o (L ++ [m]) = match popen o L with Some _ => None | None => Some m end.
+Proof.
+  induction L as [|x L IH]; intros o m; cbn [app popen].
+  - destruct o; reflexivity.
+  - destruct o; apply IH.
+Qed.
+
+Definition opn (st : kst) : bool := match st with KOpen _ => true | _ => false end.
+Definition is_some {A} (o : option A) : bool := match o with Some _ => true | None => false end.
+
+Lemma kstep_opn strict st m st' : kstep strict st m = Some st' -> opn st' = negb (opn st).
+Proof.
+  unfold kstep. destruct (is_on m), st as [|a|a b]; try discriminate.
+  - intros [= <-]. reflexivity.
+  - destruct (b <=? m_time m); [|discriminate]. intros [= <-]. reflexivity.
+  - destruct (if strict then _ else _); [|discriminate]. intros [= <-]. reflexivity.
+Qed.
+
+Lemma krun_popen strict : forall L st o st', krun strict st L = Some st' -> opn st = is_some o ->
+  opn st' = is_some (popen o L).
+Proof.
+  induction L as [|m L IH]; intros st o st' Hr Ho; cbn [krun popen] in *.
+  - now injection Hr as <-.
+  - destruct (kstep strict st m) as [st1|] eqn:KS; [|discriminate].
+    apply kstep_opn in KS. destruct o; cbn [is_some] in Ho; apply (IH st1 _ st' Hr); rewrite KS, Ho; reflexivity.
+Qed.
+
+Lemma cpairs_in o L on off : In (on, Some off) (cpairs o L) -> (In on L \/ o = Some on) /\ In off L.
+Proof.
+  revert o. induction L as [|m L IH]; intros o; cbn [cpairs]; [intros []|].
+  destruct o as [x|].
+  - intros [[= <- <-]|H]; [split; [now right|now left]|].
+    destruct (IH None H) as [[H1|H1] H2]; [|discriminate]. split; [left|]; now right.
+  - intros H. destruct (IH (Some m) H) as [[H1|H1] H2].
+    + split; [left|]; now right.
+    + injection H1 as <-. split; [left; now left|now right].
+Qed.
+
+Lemma cpairs_closed o L sp : In sp (cpairs o L) -> exists off, snd sp = Some off.
+Proof.
+  revert o. induction L as [|m L IH]; intros o; cbn [cpairs]; [intros []|].
+  destruct o as [x|]; [intros [<-|H]; [now exists m|eauto]|eauto].
+Qed.
+
+
+Lemma kproj_app k a b : kproj k (a ++ b) = kproj k a ++ kproj k b.
+Proof. unfold kproj. apply filter_app. Qed.
+
+Lemma no_fail_app a b : no_fail (a ++ b) -> no_fail a.
+Proof. intros H k Hk. apply (H k). now rewrite kproj_app, krun_app, Hk. Qed.
+
+Lemma kproj_in k l m : In m (kproj k l) -> In m l /\ is_note m = true /\ qkey m = k.
+Proof.
+  unfold kproj. intros H. apply filter_In in H. destruct H as [H1 H2]. apply andb_true_iff in H2.
+  destruct H2 as [H2 H3]. apply k2_eqb_eq in H3. auto.
+Qed.
+
+Lemma kproj_cons_eq k x l :
+  kproj k (x :: l) = if is_note x && k2_eqb k (qkey x) then x :: kproj k l else kproj k l.
+Proof. reflexivity. Qed.
+
 (* ------------------------------------------------------------------ examples *)
 Definition ex_l : list msg :=
   [ mk_on 0 60 90 1 false; mk_on 1 60 80 1 false; mk_cc 0 7 100 2 false; mk_off 0 60 2 false;
